@@ -68,7 +68,9 @@ fn log_seam(kind: u8, req: u64, ret: u64) {
     LOG.with(|l| {
         let mut l = l.borrow_mut();
         l.seam_calls += 1;
-        l.bytes_moved += ret;
+        if matches!(kind, b'r' | b'w' | b'p') {
+            l.bytes_moved = l.bytes_moved.wrapping_add(ret);
+        }
         if l.seam_events {
             l.n_events += 1;
             l.h.write_u8(kind);
